@@ -1553,7 +1553,7 @@ impl<'a> Exec<'a> {
                 if is_orig {
                     let after_reopen = !self.written_since_reopen.contains(&skey);
                     viol!(
-                        if after_reopen { "filter-undone-by-reopen" } else { "filter-resurrected" },
+                        if after_reopen && verdict == 1 { "filter-remove-undone-by-reopen" } else if after_reopen { "filter-replace-undone-by-reopen" } else { "filter-resurrected" },
                         "key {} of filtered keyspace {:?} was observed filtered as {:?} and later reads its original {} without being rewritten{}",
                         show(key),
                         self.cfg.names[ks as usize],
